@@ -138,7 +138,9 @@ class Ctx:
         if m:
             res["generated"], res["distinct"] = int(m[-1][0]), int(m[-1][1])
         else:
-            res["generated"], res["distinct"] = 0, 0
+            ms = re.findall(r"The number of states generated: (\d+)", out)
+            g = int(ms[-1]) if ms else 0
+            res["generated"], res["distinct"] = g, g
         res["violated"] = bool(re.search(r"Error: Invariant .* is violated|Error: Action property .* is violated|is violated", out))
         res["violated_name"] = (re.findall(r"Error: (?:Invariant|Action property) (\S+) is violated", out) or [None])[0]
         finished = "Model checking completed" in out or "Finished in" in out or (simulate and "states checked" in out)
